@@ -79,6 +79,7 @@ class ModelModifier:
         params, quantized_model
     )
 
+    _verif_trace_plan(instructions)
     self._transformation_performer.transform_graph(
         instructions, quantized_model
     )
@@ -189,3 +190,34 @@ class ModelModifier:
         quantized_model
     )
     return model_bytearray
+
+
+def _verif_trace_plan(instructions) -> None:
+  """Verification hook (off unless AI_EDGE_QUANTIZER_VERIF=1 and a plan file is set).
+
+  Appends one JSON line with the transformation instructions the generator
+  produced, tensor by tensor in the order the performer will apply them.
+  """
+  if os.environ.get('AI_EDGE_QUANTIZER_VERIF') != '1':
+    return
+  path = os.environ.get('AI_EDGE_QUANTIZER_VERIF_PLAN_TRACE')
+  if not path:
+    return
+  import json  # pylint: disable=g-import-not-at-top
+
+  plan = []
+  for tensor_insts in instructions.values():
+    plan.append({
+        'sub': int(tensor_insts.subgraph_id),
+        'insts': [
+            [
+                inst.transformation.name,
+                int(inst.tensor_id),
+                -1 if inst.producer is None else int(inst.producer),
+                [int(c) for c in inst.consumers],
+            ]
+            for inst in tensor_insts.instructions
+        ],
+    })
+  with open(path, 'a') as plan_file:
+    plan_file.write(json.dumps(plan) + '\n')
